@@ -180,7 +180,7 @@ def literalLoop (exprStart : Int) : Nat â†’ Str â†’ Option Ch â†’ Ctx â†’ Str â†
     else if exprStart != 0 then
       if ch == 123 then literalLoop exprStart fuel xs (some ch) { ctx with expr := ctx.expr + 1 } (ch :: v) (ch :: u)
       else if ch == 125 then
-        if ctx.expr > exprStart then
+        if ctx.expr > 1 then                              -- text / expression values start at depth 1 (not `exprStart`: a literal resumed after `$` inside nested braces)
           literalLoop exprStart fuel xs (some ch) { ctx with expr := ctx.expr - 1 } (ch :: v) (ch :: u)
         else (v.reverse, u.reverse, ch :: xs, ctx)
       else literalLoop exprStart fuel xs (some ch) ctx (ch :: v) (ch :: u)
